@@ -31,7 +31,8 @@ def rand_op(rng, names):
     if r < 0.78: return CC(node, 0, "create-db e%d t" % rng.randint(0, 2))
     if r < 0.84: return CC(node, 0, "create-user u%d pw" % rng.randint(0, 1))
     if r < 0.9: return CC(node, 0, "set-permissions u0 %s a*" % rng.choice(["r", "rw", "rwix"]))
-    return CC(node, 0, "snapshot false")
+    if r < 0.95: return CC(node, 0, "snapshot false")
+    return ["flush", node]
 
 
 def gen_cases(tier, seed):
@@ -47,6 +48,18 @@ def gen_cases(tier, seed):
                 ops = list(base) + [CC("n1", 1, "set a 0"), ["settle"], CC(node, 0, s), ["settle"]]
                 cases.append(("s%d" % cid, hdr, ops)); cid += 1
         dist["single_op"] = cid
+    for i in range(n // 4):
+        names, hdr, base = setup(2)
+        ops = list(base)
+        for _ in range(rng.randint(3, 8)):
+            r = rng.random()
+            if r < 0.25: ops += [CC("n1", 0, "snapshot false"), ["settle"]]
+            elif r < 0.45: ops += [["flush", rng.choice(names)]]
+            elif r < 0.65: ops += [CC("n1", 0, "remove a"), ["settle"]]
+            else: ops += [CC("n1", 0, "set a v%d" % rng.randint(0, 9)), ["settle"]]
+        ops.append(["settle"])
+        cases.append(("f%d" % i, hdr, ops))
+    dist["snapshot_timing"] = n // 4
     for i in range(n):
         nn = rng.choice([2, 3, 3])
         names, hdr, base = setup(nn, rng.choice(["none", "none", "newer"]))
@@ -69,6 +82,8 @@ def oracle(case, io, mo):
     fails = []
     obs = split_obs(io)
     writers = {}     # (db,key) -> set of nodes that originated a plain write / remove to it
+    flushed = False
+    removed = set()
     for i, op in enumerate(case[2]):
         if i >= len(obs):
             fails.append(("driver-died", "step %d" % i)); break
@@ -77,10 +92,14 @@ def oracle(case, io, mo):
             fails.append(("panic", "step %d" % i))
         if reply.startswith("NotSettled"):
             fails.append(("not-quiescent", "step %d: still exchanging messages after the round budget" % i))
+        if op[0] == "flush":
+            flushed = True
         if op[0] == "cmd":
             w = line_of(op).split(" ")
             if w[0] in ("set", "remove", "set-safe") and len(w) > 1:
                 writers.setdefault(w[1], set()).add(op[1])
+                if w[0] == "remove":
+                    removed.add(w[1])
             if w[0] == "create-user" and len(w) > 1:
                 writers.setdefault("$$user_" + w[1], set()).add(op[1])
             if w[0] == "set-permissions" and len(w) > 1:
@@ -119,6 +138,10 @@ def oracle(case, io, mo):
                             # the node's own client wrote this key: a secondary applies its own write at once and
                             # again when the primary echoes it, i.e. outside the primary's order (known finding)
                             fails.append(("secondary-origin-write-diverges", "step %d: %s key %s (%s): primary %s, originating secondary %s holds %s" % (i, dbn, k, what, a, name, b)))
+                        elif what == "version" and flushed and k in removed:
+                            # nodes write their snapshots at different times; a remove drops a never-persisted key but
+                            # keeps (and versions) a tombstone for a persisted one, so later versions differ
+                            fails.append(("version-depends-on-snapshot-timing", "step %d: %s key %s: primary %s, %s %s" % (i, dbn, k, a, name, b)))
                         else:
                             fails.append((what + "-differs", "step %d: %s key %s: primary %s, %s %s" % (i, dbn, k, a, name, b)))
     return fails
